@@ -1,7 +1,7 @@
 import XV.Props.C04
 import XV.Props.C05
 import XV.Props.C03
-import XV.Lemmas.CrashHistory
+import XV.Lemmas.CrashCheck
 /-!
 C06 — crash consistency at every storage-write boundary.
 
@@ -150,14 +150,16 @@ end XV.C06
 namespace XV.C06
 open XV.Chain XV.Crash XV.C01 XV.C02
 
--- example environment (the tree of C01's `wkEnv`, one block longer, with a second genesis output):
---   blocks 2 and 3 are children of block 1, block 4 is a child of 3; block 2 = award 20 + transfer 21 (creates key "k",
---   pays a fee), block 3 = award 30 + transfer 31 (spends the same output as 21, creates key "j"), block 4 = award 40 +
---   transfer 41 (spends an output of 31, deletes "j"); pending: 22 (spends an output of 21, overwrites "k": only valid on
---   block 2) and 23 (spends the second genesis output: valid on every branch). Slide window 1.
+-- example environment (the tree of C01's `wkEnv`, one block longer, with a genesis transaction that has two outputs):
+--   block 1 = the root with the genesis transaction 0; blocks 2 and 3 are children of block 1, block 4 is a child of 3;
+--   block 2 = award 20 + transfer 21 (creates key "k", pays a fee), block 3 = award 30 + transfer 31 (spends the same
+--   output as 21, creates key "j"), block 4 = award 40 + transfer 41 (spends an output of 31, deletes "j"); pending: 22
+--   (spends an output of 21, overwrites "k": only valid on block 2) and 23 (spends the second genesis output: valid on
+--   every branch). Slide window 1. The base state below the root is empty.
 private def cEnv : Env := {
   window := 1,
   txs := [
+    (0, ⟨0, true, [], [⟨"u0", 5, 0⟩, ⟨"u9", 3, 0⟩], [], []⟩),
     (20, ⟨20, true, [], [⟨"m2", 10, 0⟩], [], []⟩),
     (21, ⟨21, false, [⟨0, 0, "u0", 5, 0, false⟩], [⟨"u1", 4, 0⟩, ⟨"$", 1, 0⟩], [⟨"k", none⟩], [⟨"k", "a", false⟩]⟩),
     (22, ⟨22, false, [⟨21, 0, "u1", 4, 0, false⟩], [⟨"u2", 4, 0⟩], [⟨"k", some (21, 0)⟩], [⟨"k", "b", false⟩]⟩),
@@ -166,20 +168,19 @@ private def cEnv : Env := {
     (31, ⟨31, false, [⟨0, 0, "u0", 5, 0, false⟩], [⟨"u3", 5, 0⟩], [⟨"j", none⟩], [⟨"j", "c", false⟩]⟩),
     (40, ⟨40, true, [], [⟨"m4", 10, 0⟩], [], []⟩),
     (41, ⟨41, false, [⟨31, 0, "u3", 5, 0, false⟩], [⟨"u4", 5, 0⟩], [⟨"j", some (31, 0)⟩], [⟨"j", "", true⟩]⟩)],
-  blocks := [(1, ⟨1, none, 0, [], "m1"⟩), (2, ⟨2, some 1, 1, [20, 21], "m2"⟩), (3, ⟨3, some 1, 1, [30, 31], "m3"⟩),
+  blocks := [(1, ⟨1, none, 0, [0], "m1"⟩), (2, ⟨2, some 1, 1, [20, 21], "m2"⟩), (3, ⟨3, some 1, 1, [30, 31], "m3"⟩),
     (4, ⟨4, some 3, 2, [40, 41], "m4"⟩)] }
-/-- the base state below the root block -/
-private def cG : St := { U := [((0, 0), ⟨"u0", 5, 0⟩), ((0, 1), ⟨"u9", 3, 0⟩)], total := 8 }
-/-- the node at the root block -/
-private def cN : Node := { l := XV.Ledger.genesis 1 [], s := canon cEnv cG 1 }
+/-- the (empty) base state below the root block -/
+private def cG : St := {}
+/-- the node at the root block: ledger with the genesis block, state = canonical state of block 1 -/
+private def cN : Node := { l := XV.Ledger.genesis 1 [0], s := canon cEnv cG 1 }
 /-- the history: block 2 confirmed and played, two submissions, the sibling 3 confirmed (side branch), its child 4
 confirmed (the trunk switches), the state walked across the fork to the new tip -/
 private def cOps : List Op := [.confirm 2, .play 2, .submit 22, .submit 23, .confirm 3, .confirm 4, .walk 4 false]
+/-- the node of the uninterrupted run after `k` operations -/
+private def cNd (k : Nat) : Node := run cEnv cN (cOps.take k)
 /-- the node just before the walk: ledger tip 4, state at block 2 with pool [22, 23] -/
-private def cM : Node := run cEnv cN (cOps.take 6)
-/-- same rows in two association lists (lookup by lookup over the keys of both) -/
-private def rowsEq {κ ν : Type} [DecidableEq κ] [DecidableEq ν] (a b : List (κ × ν)) : Bool :=
-  (a.map (·.1) ++ b.map (·.1)).all (fun k => lookup a k == lookup b k)
+private def cM : Node := cNd 6
 
 -- ------------------------------------------------------------------ 1. the trace of a walk
 
@@ -371,7 +372,7 @@ def LedgerStep (e : Env) (n : Node) : Op → Prop
   | .play b => Stored n.l (e.block b).id
   | .playMiner b => Stored n.l (e.block b).id
   | .walk dest _ => WalkTree e n.s.pointer dest ∧
-    ∀ b, (b ∈ ancestors e (e.blocks.length + 1) n.s.pointer ∨ b ∈ ancestors e (e.blocks.length + 1) dest) → Stored n.l b
+    ∀ b ∈ ancestors e (e.blocks.length + 1) n.s.pointer ++ ancestors e (e.blocks.length + 1) dest, Stored n.l b
   | .truncate dest => dest ∈ XV.Ledger.pathOf n.l n.l.tip ∧
     ∃ hp hd, lookup n.l.B n.s.pointer = some hp ∧ lookup n.l.B dest = some hd ∧ hp.height ≤ hd.height
 
@@ -422,8 +423,8 @@ theorem crash_ledger_invariant (e : Env) (n : Node) (ops : List Op) (I : XV.Ledg
       | walk dest prune =>
         refine ⟨I', ?_⟩
         show Stored m.l (walk e m.s (lh m) dest prune).1.pointer
-        exact hstep.2 _ (walkTrace_pointer_mem e m.s (lh m) dest prune hstep.1 _
-          (List.mem_of_getLast? (walkTrace_getLast e m.s (lh m) dest prune)))
+        exact hstep.2 _ (List.mem_append.mpr (walkTrace_pointer_mem e m.s (lh m) dest prune hstep.1 _
+          (List.mem_of_getLast? (walkTrace_getLast e m.s (lh m) dest prune))))
       | truncate dest =>
         obtain ⟨hon, hph, hdh, s1, s2, hle⟩ := hstep
         exact ⟨XV.C04.truncate_inv m.l dest I' hon, XV.Ledger.truncate_keeps_low I' dest s2 s1 hle⟩
@@ -432,14 +433,14 @@ theorem crash_ledger_invariant (e : Env) (n : Node) (ops : List Op) (I : XV.Ledg
   · refine ⟨⟨k, hk, hl⟩, by rw [hl]; exact (hrun k hk).1, ?_⟩
     obtain ⟨W, hst⟩ := hsteps k _ hop
     rw [hl]
-    exact hst _ (walkTrace_pointer_mem e _ _ dest prune W x.s hs)
+    exact hst _ (List.mem_append.mpr (walkTrace_pointer_mem e _ _ dest prune W x.s hs))
 
 -- every crash state of the example history: the pointer's block is stored, and the ledger is one of the four ledgers of
 -- the uninterrupted run (tips 1, 2, 2 with the side block 3, 4)
 example : ∀ x ∈ crashStates cEnv cN cOps, Stored x.l x.s.pointer ∧
     (x.l.tip, x.l.B.length) ∈ [(1, 1), (2, 2), (2, 3), (4, 4)] := by decide
 example : XV.Ledger.LedgerInv cM.l := by
-  have I0 := XV.C04.genesis_inv 1 []
+  have I0 := XV.C04.genesis_inv 1 [0]
   have I1 := XV.C04.confirm_inv _ 2 1 (confirmArgs cEnv 2) I0 (by decide) (by decide)
   have I2 := XV.C04.confirm_inv _ 3 1 (confirmArgs cEnv 3) I1 (by decide) (by decide)
   exact XV.C04.confirm_inv _ 4 3 (confirmArgs cEnv 4) I2 (by decide) (by decide)
@@ -625,5 +626,79 @@ example : PruneFree cOps ∧
 -- batch re-admits 23
 example : (walkTrace cEnv (run cEnv cN cOps).s 2 1 true).map (fun x => (x.pointer, x.irrev, x.pool)) =
     [(4, 1, []), (3, 1, []), (1, 0, []), (1, 0, [23])] := by decide
+
+-- ------------------------------------------------------------------ 3. the hypotheses can be met
+
+-- The hypotheses of the history-level theorems (`History`, `LedgerStep`) hold for the example history: the
+-- uninterrupted run satisfies the C01 invariant (checked row by row, `SInvC`) and the C02 invariant (through the C02
+-- theorems, operation by operation), every chain of the environment is valid, the walk meets its side conditions.
+
+private theorem cTree : WalkTree cEnv cM.s.pointer 4 :=
+  ⟨parentLower_of_blocks _ (by decide), ⟨1, by decide, by decide⟩, by decide, by decide⟩
+
+private theorem cL0 : Ledger cEnv (cNd 0).s [0] :=
+  (todoBlock_Ledger cEnv {} (cNd 0).s 0 (cEnv.block 1) [] rfl (Ledger_genesis cEnv) rfl (by decide) (by decide)
+    (by decide) (by decide)).1
+private theorem cL2 : Ledger cEnv (cNd 2).s [0, 20, 21] := by
+  have := play_Ledger_repaired cEnv (cNd 1).s (lh (cNd 1)) (cEnv.block 2) [0] cL0 (by decide) (by decide) (by decide)
+    (by decide) (by decide) (by decide)
+  rw [if_pos (by decide)] at this
+  exact this
+private theorem cL3 : Ledger cEnv (cNd 3).s [0, 20, 21] :=
+  doTx_Ledger cEnv (cNd 2).s (lh (cNd 2)) 22 _ cL2 (fun _ => by decide)
+private theorem cL4 : Ledger cEnv (cNd 4).s [0, 20, 21] :=
+  doTx_Ledger cEnv (cNd 3).s (lh (cNd 3)) 23 _ cL3 (fun _ => by decide)
+private theorem cL7 : Ledger cEnv (cNd 7).s [0, 30, 31, 40, 41] := by
+  obtain ⟨C', c1, c2⟩ := walk_Ledger cEnv (cNd 6).s (lh (cNd 6)) 4 false [0, 20, 21] [0] cL4 (by decide) (by decide)
+    (by decide) (by decide)
+  rw [c2 (by decide)] at c1
+  exact c1
+
+private theorem cSInv : ∀ k ∈ List.range 8, SInvC cEnv cG (cNd k).s := by decide
+
+private theorem cHistory : History cEnv cG cN cOps where
+  kv := KVInv_empty cEnv cG rfl rfl
+  tree := treeValid_of_blocks _ _ (by decide)
+  sinv := fun k hk => (cSInv k (List.mem_range.mpr (Nat.lt_succ_of_le hk))).sound
+  led := fun k hk =>
+    match k, hk with
+    | 0, _ => ⟨_, cL0⟩
+    | 1, _ => ⟨_, cL0⟩
+    | 2, _ => ⟨_, cL2⟩
+    | 3, _ => ⟨_, cL3⟩
+    | 4, _ => ⟨_, cL4⟩
+    | 5, _ => ⟨_, cL4⟩
+    | 6, _ => ⟨_, cL4⟩
+    | 7, _ => ⟨_, cL7⟩
+    | k + 8, h => absurd h (by simp [cOps])
+  walks := fun k dest prune hop =>
+    match k, hop with
+    | 6, hop => by
+      cases hop
+      exact ⟨cTree, [0, 20, 21], [0], cL4, by decide, by decide, by decide, by decide⟩
+    | k + 7, hop => by simp [cOps] at hop
+
+private theorem cLedgerSteps : ∀ k op, cOps[k]? = some op → LedgerStep cEnv (run cEnv cN (cOps.take k)) op := by
+  intro k op hop
+  match k, hop with
+  | 0, hop => cases hop; exact ⟨by decide, by decide⟩
+  | 1, hop => cases hop; exact (by decide : Stored (cNd 1).l 2)
+  | 2, hop => cases hop; exact trivial
+  | 3, hop => cases hop; exact trivial
+  | 4, hop => cases hop; exact ⟨by decide, by decide⟩
+  | 5, hop => cases hop; exact ⟨by decide, by decide⟩
+  | 6, hop => cases hop; exact ⟨cTree, by decide⟩
+  | k + 7, hop => simp [cOps] at hop
+
+-- so the history-level theorems apply to it: every crash state satisfies the C01 and C02 invariants, carries a ledger
+-- with the main-chain invariant that stores the pointer's block, and a successful restart lands on the canonical state
+-- of its ledger tip
+example : ∀ x ∈ crashStates cEnv cN cOps,
+    SInv cEnv cG x.s ∧ (∃ C, Ledger cEnv x.s C) ∧ PoolInv cEnv x.s ∧
+    XV.Ledger.LedgerInv x.l ∧ Stored x.l x.s.pointer :=
+  fun x hx =>
+    have h1 := crash_history_invariants cEnv cG cN cOps cHistory x hx
+    have h2 := crash_ledger_invariant cEnv cN cOps (XV.C04.genesis_inv 1 [0]) (by decide) cLedgerSteps x hx
+    ⟨h1.1, h1.2.1, h1.2.2.1, h2.2.1, h2.2.2⟩
 
 end XV.C06
